@@ -314,6 +314,23 @@ def r5_r6(ctx, prog):
     ctx.ob('C14.R5', '%s|fresh-id' % f.name, ok, 'a fresh id is allocated before registration', where=f.loc(f.body))
 
 
+def r17(ctx, prog):
+    ctx.rule('C14.R17', 'A4 request ids only grow: over the whole life of an Rpc object — cleanup() and a new initialize() included — the only write to the id counter is the '
+             'increment that draws a new id; a reset makes new requests reuse the ids of requests that are still unanswered, and a late response to an old one completes a new one', floor=1)
+    ws = []
+    for g in prog.methods_of(RPC):
+        for st in g.stmts:
+            if st and st['k'] in ('UnaryOperator', 'BinaryOperator', 'CompoundAssignOperator') and (st.get('op') in ('++', '--', '=') or st.get('op', '').endswith('=') and st['op'] not in ('==', '!=', '<=', '>=')):
+                if (g.field_of(st['ch'][0]) or '').endswith('::id_alloc_'):
+                    ws.append((g, st))
+    if not ws:
+        raise AnalysisBroken('Rpc: no write of id_alloc_ found')
+    bad = [(g, st) for g, st in ws if not (st['k'] == 'UnaryOperator' and st.get('op') == '++')]
+    ctx.ob('C14.R17', 'Rpc|id-counter', not bad, 'id_alloc_ is only ever incremented (%d site(s))' % len(ws) if not bad else
+           '%s() writes id_alloc_ other than by incrementing it (%s): ids handed out afterwards repeat ids of requests still outstanding' % (bad[0][0].short, bad[0][0].loc(bad[0][1]['i'])),
+           where=bad[0][0].loc(bad[0][1]['i']) if bad else ws[0][0].loc(ws[0][1]['i']))
+
+
 def r7(ctx, prog):
     ctx.rule('C14.R7', 'A9e: recursion reachable from input is bounded by an explicit depth test', floor=1)
     f = prog.fn1(NS + 'Proto::onRecvJson')
@@ -674,6 +691,7 @@ def run(ctx):
     ctx.guard(r14, ctx, prog)
     ctx.guard(r15, ctx, prog)
     ctx.guard(r16, ctx, prog)
+    ctx.guard(r17, ctx, prog)
     ctx.guard(harden.run_json_narrowing, ctx, prog, 'C14.R11', [prog.fn1(NS + 'Proto::onRecvJson')] + [prog.fn1(RPC + '::' + n) for n in ('onRecvRequest', 'onRecvRespond')],
               lambda g: g.file.startswith(MODULES + '/jsonrpc/') or g.file.startswith(MODULES + '/util/'), 'JSON-RPC receive path')
     ctx.guard(harden.run, ctx, prog, 'C14.R10', [prog.fn1(NS + p + '::onRecvData') for p in PROTOS] + [prog.fn1(NS + 'Proto::onRecvJson')] +
